@@ -3,14 +3,21 @@
    abstract events of both sides (harness/c13.go) and the 11 table sizes read on each side. *)
 From Coq Require Import ZArith NArith List Bool.
 From GoCoap Require Import Base.Cases Base.Bytes Conn.MutexMap Conn.Spec.
+From GoCoap Require Conn.Sweep.
 From GoCoap Require Export Conn.Model.
 Import ListNotations.
 Open Scope Z_scope.
 
 (* kind: 0 = calls in flight, 1 = every call returned and no ping outstanding, 2 = additionally aged
-   past every deadline and ticked MAX_RETRANSMIT+1 times *)
+   past every deadline and ticked MAX_RETRANSMIT+1 times, 3 = every call returned, aged past every
+   deadline and ticked ONCE *)
 Inductive stepobs := St (kind : Z) (evs : list (bool * cev)) (szA szB : list Z) (nlive : Z).
-Inductive case := Hist (le hang nbad : Z) (steps : list stepobs).
+(* Sweep: one pkg/cache.Cache filled with [ents] = (key, deadline in ms, None = zero time), ONE
+   CheckExpirations(now); [left] = keys found afterwards (ascending), [fired] = keys whose onExpire
+   ran (ascending), [bad] = panics *)
+Inductive case :=
+| Hist (le hang nbad : Z) (steps : list stepobs)
+| Sweep (now : Z) (ents : list (Z * option Z)) (left fired : list Z) (bad : Z).
 
 (* transmission parameters the harness configures (harness/c13.go: c13AckMs, c13MaxRt, c13NStart) *)
 Definition rcfg : R.cfg := {| R.ack_ms := 140000; R.max_rt := 2; R.nstart := 16 |}.
@@ -30,20 +37,33 @@ Fixpoint agrees_steps (ab : conn * conn) (l : list stepobs) : bool :=
       (blen (live (fst ab')) =? nl) && agrees_steps ab' r
   end.
 
+Module S := GoCoap.Conn.Sweep.
+
+(* the model's pass visits the keys in the order of [ents]; the result does not depend on the order
+   (Sweep.pass_complete), Go's map order is not observed *)
+Definition sweep_model (now : Z) (ents : list (Z * option Z)) : list Z * list Z :=
+  let m := map (fun '(k, u) => (k, S.mkE u k)) ents in
+  let r := S.check_expirations now (map fst ents) m in
+  (S.keys (fst r), map S.e_ptr (snd r)).
+
 Definition agrees (c : case) : bool :=
   match c with
   | Hist le hang nbad steps => (hang =? 0) && (nbad =? 0) && agrees_steps (init 0 le, init 0 0) steps
+  | Sweep now ents lft fired bad =>
+      (bad =? 0) && zlist_eqb (fst (sweep_model now ents)) lft && zlist_eqb (snd (sweep_model now ents)) fired
   end.
 
 (* property predicate on the OBSERVED sizes (Spec only).  classes: 1 token continuation left,
    2 message-ID continuation left, 3 per-ID lock left, 4 cached reply after the lifetime,
    5 block-wise send buffer left, 6 block-wise reassembly buffer left, 7 limiter entry left,
-   8 observation table differs from the live observations, 9 hang / panic / unexpected result *)
+   8 observation table differs from the live observations, 9 hang / panic / unexpected result,
+   10 an entry of an expiry cache whose deadline has passed survives the housekeeping tick *)
 Definition step_class (s : stepobs) : N :=
   match s with
   | St kind _ sa sb nl =>
       if kind =? 1 then match at_rest_class true sa nl with 0%N => at_rest_class false sb 0 | c => c end
       else if kind =? 2 then match closed_class sa nl with 0%N => closed_class sb 0 | c => c end
+      else if kind =? 3 then match swept_class sa with 0%N => swept_class sb | c => c end
       else 0%N
   end.
 
@@ -63,6 +83,7 @@ Definition pclass (c : case) : N :=
            | 0%N => if has_closing steps then 0%N else 9%N
            | c => c
            end
+  | Sweep now ents lft _ bad => if negb (bad =? 0) then 9%N else sweep_class now ents lft
   end.
 
 Definition mismatches (cs : list case) : list N := bad_indices (fun c => negb (agrees c)) cs.
